@@ -23,7 +23,7 @@ canonical spelling, so a rule sees the same tree whichever one the author chose:
   D14 [a, b][k]                          -> the k-th element (literal sequence, constant k)
   D16 x.reshape((a, b)) -> x.reshape(a, b) (view / expand / repeat / permute / tile alike); D17 X[a:b][k] -> X[a + k]
   D18 aliases of torch sub-modules (`nn`, `F`) -> `torch.nn`, `torch.nn.functional`; D19 `x.add_(y)` as a statement -> `x += y` (sub_/mul_/div_ alike)
-  D14b (a, b, c)[1:] -> (b, c); D20 f(*(a, b)) -> f(a, b)
+  D14b (a, b, c)[1:] -> (b, c); D20 f(*(a, b)) -> f(a, b); D21 [v for v in xs] -> list(xs); D22 y = x.mul_(a).add_(b) -> x *= a; x += b; y = x
   D15 [*xs]                              -> list(xs)
   D12 X.m(a, q=b) -> X.m(a, b) when q is the next positional parameter of every definition of method m in the package
 
@@ -125,6 +125,44 @@ class Canon(ast.NodeTransformer):
             return ast.copy_location(ast.AugAssign(target=tgt, op=INPLACE_METHODS[c.func.attr](), value=c.args[0]), node)
         return node
 
+    def _inplace_chain(self, value):
+        """x.mul_(a).add_(b) rooted at a local name -> (x, [(Mult, a), (Add, b)]); None otherwise"""
+        links = []
+        cur = value
+        while isinstance(cur, ast.Call) and isinstance(cur.func, ast.Attribute) and cur.func.attr in INPLACE_METHODS and len(cur.args) == 1 and not cur.keywords \
+                and not isinstance(cur.args[0], ast.Starred):
+            links.append((INPLACE_METHODS[cur.func.attr], cur.args[0], cur))
+            cur = cur.func.value
+        if not links or not isinstance(cur, ast.Name):
+            return None
+        root = cur.id
+        if any(isinstance(n, ast.Name) and n.id == root for _, a, _ in links for n in ast.walk(a)):
+            return None  # an argument reads the receiver: the order of evaluation matters
+        return cur, list(reversed(links))
+
+    def _split_inplace(self, node, value, rebuild):
+        got = self._inplace_chain(value)
+        if got is None:
+            return node
+        root, links = got
+        out = []
+        for op, arg, call in links:
+            out.append(ast.copy_location(ast.AugAssign(target=ast.copy_location(ast.Name(id=root.id, ctx=ast.Store()), call), op=op(), value=arg), node))
+        out.append(rebuild(ast.copy_location(ast.Name(id=root.id, ctx=ast.Load()), node)))
+        self.count += 1
+        return out
+
+    def visit_Assign(self, node: ast.Assign):
+        self.generic_visit(node)
+        # D22 y = x.mul_(a).add_(b) -> x *= a; x += b; y = x (the value of an in-place method is its receiver)
+        return self._split_inplace(node, node.value, lambda v: ast.copy_location(ast.Assign(targets=node.targets, value=v), node))
+
+    def visit_Return(self, node: ast.Return):
+        self.generic_visit(node)
+        if node.value is None:
+            return node
+        return self._split_inplace(node, node.value, lambda v: ast.copy_location(ast.Return(value=v), node))
+
     def visit_Name(self, node: ast.Name):
         # D18 aliases of torch sub-modules -> the dotted name
         if isinstance(node.ctx, ast.Load) and node.id in self.aliases:
@@ -139,7 +177,7 @@ class Canon(ast.NodeTransformer):
 
     def _hit(self, new, old):
         self.count += 1
-        for a in ("_def_id", "_iter_of", "_iter_src", "_phi", "_tuple_elt"):
+        for a in ("_def_id", "_iter_of", "_iter_src", "_iter_epoch", "_phi", "_tuple_elt"):
             if hasattr(old, a) and not hasattr(new, a):
                 setattr(new, a, getattr(old, a))
         return ast.copy_location(new, old)
@@ -277,6 +315,15 @@ class Canon(ast.NodeTransformer):
         # D15 [*xs] -> list(xs)
         if isinstance(node.ctx, ast.Load) and len(node.elts) == 1 and isinstance(node.elts[0], ast.Starred):
             return self._hit(ast.Call(func=ast.copy_location(ast.Name(id="list", ctx=ast.Load()), node), args=[node.elts[0].value], keywords=[]), node)
+        return node
+
+    def visit_ListComp(self, node: ast.ListComp):
+        self.generic_visit(node)
+        # D21 the identity comprehension [v for v in xs] -> list(xs)
+        if len(node.generators) == 1:
+            g = node.generators[0]
+            if not g.ifs and not g.is_async and isinstance(g.target, ast.Name) and isinstance(node.elt, ast.Name) and node.elt.id == g.target.id:
+                return self._hit(ast.Call(func=ast.copy_location(ast.Name(id="list", ctx=ast.Load()), node), args=[g.iter], keywords=[]), node)
         return node
 
     def visit_BinOp(self, node: ast.BinOp):
@@ -457,9 +504,46 @@ class ArgForm(ast.NodeTransformer):
         return node
 
 
+def tuple_returning(trees) -> Set[str]:
+    """names of package functions / methods every definition of which returns a tuple display on every `return`
+    (a constant index of such a call is an element of the returned tuple, however it is spelled)"""
+    ok, bad = set(), set()
+    for tree in trees:
+        for fn in ast.walk(tree):
+            if not isinstance(fn, (ast.FunctionDef, ast.AsyncFunctionDef)):
+                continue
+            rets = []
+
+            def collect(n):
+                for c in ast.iter_child_nodes(n):
+                    if isinstance(c, (ast.FunctionDef, ast.AsyncFunctionDef, ast.Lambda, ast.ClassDef)):
+                        continue
+                    if isinstance(c, ast.Return):
+                        rets.append(c)
+                    collect(c)
+            collect(fn)
+            if rets and all(isinstance(r.value, ast.Tuple) and len(r.value.elts) >= 2 for r in rets):
+                ok.add(fn.name)
+            else:
+                bad.add(fn.name)
+    return ok - bad
+
+
 def argument_form(trees) -> int:
     sigs = api_signatures(trees)
     t = ArgForm(sigs)
     for tree in trees:
         t.visit(tree)
+    # D23 f(...)[k] with a constant k on a tuple-returning package function is the k-th element of its result - the same value as
+    # the k-th target of a tuple unpacking of that call (the walker's `_tuple_elt` form)
+    tr = tuple_returning(trees)
+    for tree in trees:
+        for n in ast.walk(tree):
+            if isinstance(n, ast.Subscript) and isinstance(n.slice, ast.Constant) and isinstance(n.slice.value, int) and not isinstance(n.slice.value, bool) \
+                    and isinstance(n.value, ast.Call) and isinstance(n.ctx, ast.Load):
+                f = n.value.func
+                name = f.attr if isinstance(f, ast.Attribute) else f.id if isinstance(f, ast.Name) else None
+                if name in tr and n.slice.value >= 0:
+                    n._tuple_elt = True  # type: ignore[attr-defined]
+                    t.count += 1
     return t.count
